@@ -343,30 +343,7 @@ func (x *Exec) callBuiltin(b *ssa.Builtin, args []Value, site ssa.CallInstructio
 		default:
 			panic(x.unsupported("append arg %T", a))
 		}
-		if len(elems) == 0 {
-			return s
-		}
-		if s.Arr != nil && s.Len+len(elems) <= s.Cap {
-			for i, e := range elems {
-				x.store(s.Arr.Sub[s.Off+s.Len+i], e)
-			}
-			return SliceV{Arr: s.Arr, Off: s.Off, Len: s.Len + len(elems), Cap: s.Cap}
-		}
-		ncap := s.Len + len(elems)
-		if ncap < 2*s.Cap {
-			ncap = 2 * s.Cap
-		}
-		if et == nil {
-			panic(x.unsupported("append without site type"))
-		}
-		arr := x.newArray(et, ncap)
-		for i := 0; i < s.Len; i++ {
-			x.store(arr.Sub[i], x.load(s.Arr.Sub[s.Off+i]))
-		}
-		for i, e := range elems {
-			x.store(arr.Sub[s.Len+i], e)
-		}
-		return SliceV{Arr: arr, Off: 0, Len: s.Len + len(elems), Cap: ncap}
+		return x.appendValues(s, et, elems)
 	case "copy":
 		d := args[0].(SliceV)
 		var src []Value
@@ -434,4 +411,33 @@ func (x *Exec) doRecover() Value {
 		return iv
 	}
 	return IfaceV{T: types.Typ[types.String], V: Str{S: fmt.Sprint(tp.v)}}
+}
+
+
+// appendValues implements append(s, elems...) for element type et.
+func (x *Exec) appendValues(s SliceV, et types.Type, elems []Value) SliceV {
+	if len(elems) == 0 {
+		return s
+	}
+	if s.Arr != nil && s.Len+len(elems) <= s.Cap {
+		for i, e := range elems {
+			x.store(s.Arr.Sub[s.Off+s.Len+i], e)
+		}
+		return SliceV{Arr: s.Arr, Off: s.Off, Len: s.Len + len(elems), Cap: s.Cap}
+	}
+	ncap := s.Len + len(elems)
+	if ncap < 2*s.Cap {
+		ncap = 2 * s.Cap
+	}
+	if et == nil {
+		panic(x.unsupported("append without site type"))
+	}
+	arr := x.newArray(et, ncap)
+	for i := 0; i < s.Len; i++ {
+		x.store(arr.Sub[i], x.load(s.Arr.Sub[s.Off+i]))
+	}
+	for i, e := range elems {
+		x.store(arr.Sub[s.Len+i], e)
+	}
+	return SliceV{Arr: arr, Off: 0, Len: s.Len + len(elems), Cap: ncap}
 }
